@@ -243,6 +243,14 @@ ROUND6 = {
  "C16": " Round 6: (R8) sample i of a table is the i-th distinct line: the de-duplication sentinel of readData is no harmonic number.",
  "C18": " Round 6: (R5) construction reads geometry and configuration of the phase space only, never grid data or anything derived from it (effect summaries).",
 }
+ROUND7 = {
+ "C01": " Round 7: (R10) no transport map is built with the same grid as source and destination.",
+ "C02": " Round 7: (R11) no store into the offset table rounds, truncates or snaps an offset.",
+ "C03": " Round 7: (R8) the step counts the angle is computed from reach main unconverted (re-evaluates C20 R7); (R9) zeroth and first moment of the interpolation weights (re-evaluates C02 R1): a kick by f displaces by f.",
+ "C04": " Round 7: (R8) all moment identities of the interpolation weights below their order (re-evaluates C02 R1): no artificial diffusion.",
+ "C05": " Round 7: (R9) as C04 R8.",
+ "C09": " Round 7: R2 judges any way of accumulating a moment by its closed form in the raw moments of the projection.",
+}
 RD_TEXT = (" Dimensional consistency (rule RD, engine E7): a units-of-measure inference over the whole program (dimension variables per storage location, "
            "linear constraints from every arithmetic expression, solved over the rationals; units taken from the options' help texts, the physcons constants "
            "and the unit names used as keys) shows that the quantities this property depends on have the dimensions their use demands, for every parameter set; "
@@ -259,6 +267,8 @@ for _p, _t in ROUND4.items():
 for _p, _t in ROUND5.items():
     CLAIMED[_p]["text"] = CLAIMED[_p]["text"].rstrip() + _t
 for _p, _t in ROUND6.items():
+    CLAIMED[_p]["text"] = CLAIMED[_p]["text"].rstrip() + _t
+for _p, _t in ROUND7.items():
     CLAIMED[_p]["text"] = CLAIMED[_p]["text"].rstrip() + _t
 CLAIMED["C13"]["note"] = CLAIMED["C13"]["note"].replace("two recorded as known findings (ForceOpenGLVersion type, run_anyway skipped)", "ForceOpenGLVersion repaired later (93250ff), run_anyway skipped is a known finding")
 CLAIMED["C19"]["technique"] = "call-argument role agreement (resolved constructors), symbolic folding of the modulation expressions, life-cycle typestate (may-dataflow over the CFGs of constructors and apply) and exactly-once counts on the CFG"
